@@ -151,7 +151,7 @@ _ALL = {
              'returns the cached value or this call\'s result, stores under the same key, and stores nothing for a '
              'zero expiry (M3); Index/Fanout memoize delegate correctly (S6).',
              'Results of arbitrary user functions are not decided.'),
-    'C17': P(['H1', 'H2', 'H3', 'H4', ('S4', r'check'), ('S6', r'FanoutCache\.check'), 'H5'],
+    'C17': P(['H1', 'H2', 'H3', 'H4', ('S4', r'check'), ('S6', r'FanoutCache\.check'), 'H5', 'H6'],
              'guard dominance over enumerated paths of check()',
              'Decides that every write/removal/VACUUM in check() is dominated by `fix` (H1); every repair is preceded '
              'by a warning issued under the same condition and no warning depends on fix (H2); directory pruning reaches '
